@@ -133,6 +133,11 @@ type config struct {
 	DistVariants []int
 	MigrateGPUs  []int
 	MaxBufs      int // bound on the number of buffers ever allocated (0 = none)
+
+	// Informational: the alphabet contains calls OUTSIDE the valid set of the
+	// property (Remap onto the unified device). What the search sees there is
+	// recorded in the evidence as an observation, never as a violation.
+	Informational bool
 }
 
 func (c *config) P() uint64      { return 1 << c.Log2Page }
